@@ -9,3 +9,14 @@ package todo
 //@ requires filters != nil
 //@ ensures result <==> (exists i int :: 0 <= i && i < len(*filters) && HasSuffix(path, (*filters)[i]))
 //@ loop 1 invariant forall j int :: 0 <= j && j < #i ==> !HasSuffix(path, (*filters)[j])
+
+// C17: every comment token of every scanned file is examined, once, and reported iff it is a TODO / FIXME comment: after
+// a file the list has grown by exactly the number of such tokens of that file (a scan that stops early, skips a token or
+// reports one twice breaks the count)
+//@ spec IsCommentTok(t antlr.Token) bool := GetTokenType(t) == 1 || GetTokenType(t) == 2 || GetTokenType(t) == 3
+//@ spec rec TodoToks(ts []antlr.Token, n int) int := n <= 0 ? 0 : TodoToks(ts, n - 1) + ((IsCommentTok(ts[n - 1]) && IsTodoText(TodoBody(GetText(ts[n - 1])))) ? 1 : 0)
+//@ func BuildComments
+//@ modifies *
+//@ loop 1 invariant true
+//@ loop 1 assert len(todos) == len(todos@pre) + TodoToks(Ranged(2), len(Ranged(2)))
+//@ loop 2 invariant len(todos) == len(todos@in) + TodoToks(Ranged(2), #i)
